@@ -517,7 +517,106 @@ def _module_style_imports(tree):
             tree.body[k] = ast.copy_location(ast.ImportFrom(module=None, names=[ast.alias(name=m)], level=1), st)
 
 
+# ---------------------------------------------------------------- R10
+def _inline_hoisted_subscripts(fn):
+    """R10: `x = b[<constant index or constant slice>]` at the top level of a function body, x assigned nowhere else,
+    b a plain name that is never stored to at or after that line, the statement not inside a loop, every use of x a
+    load at a later line, the first of them in the test / value of the statement that directly follows (so the first
+    evaluation, which may raise IndexError, stays where it was)  ==>  the subscript written at each use, the assignment
+    removed.  Indexing a name with a
+    constant has no effect of its own and, b not being rebound, gives the same object at each use (for the immutable
+    str/bytes/tuple values this code indexes; a mutable b would make it differ only if mutated in between, hence the
+    rule is limited to functions that never call a method on b other than the str-like ones ... kept simple: b must
+    not appear as the receiver of any call that is a statement on its own)."""
+    changed = False
+    for st in list(fn.body):
+        if not (isinstance(st, ast.Assign) and len(st.targets) == 1 and isinstance(st.targets[0], ast.Name)):
+            continue
+        v = st.value
+        if not (isinstance(v, ast.Subscript) and isinstance(v.value, ast.Name)):
+            continue
+        sl = v.slice
+        const_index = isinstance(sl, ast.Constant) or (
+            isinstance(sl, ast.Slice) and all(p is None or isinstance(p, ast.Constant) for p in (sl.lower, sl.upper, sl.step)))
+        if not const_index:
+            continue
+        x, b = st.targets[0].id, v.value.id
+        if x == b:
+            continue
+        stores_x = [n for n in ast.walk(fn) if isinstance(n, ast.Name) and n.id == x and not isinstance(n.ctx, ast.Load)]
+        if len(stores_x) != 1:
+            continue
+        if any(isinstance(n, ast.Name) and n.id == b and not isinstance(n.ctx, ast.Load) and n.lineno >= st.lineno for n in ast.walk(fn)):
+            continue
+        if any(isinstance(n, ast.Expr) and isinstance(n.value, ast.Call) and isinstance(n.value.func, ast.Attribute)
+               and isinstance(n.value.func.value, ast.Name) and n.value.func.value.id == b for n in ast.walk(fn)):
+            continue
+        loads = [n for n in ast.walk(fn) if isinstance(n, ast.Name) and n.id == x and isinstance(n.ctx, ast.Load)]
+        if not loads or any(n.lineno <= st.lineno for n in loads):
+            continue
+        if any(isinstance(n, (ast.FunctionDef, ast.AsyncFunctionDef, ast.Lambda)) and n is not fn and any(m in loads for m in ast.walk(n)) for n in ast.walk(fn)):
+            continue
+        if len(loads) < 2:
+            continue  # a one-use temporary is the pinned source's own style in many places: leave it
+        k = fn.body.index(st)
+        nxt = fn.body[k + 1] if k + 1 < len(fn.body) else None
+        first = min(loads, key=lambda n: (n.lineno, n.col_offset))
+        if nxt is None or not any(n is first for n in ast.walk(nxt)):
+            continue  # the first evaluation must stay where it was: in the statement that directly follows
+        head = nxt.test if isinstance(nxt, (ast.If, ast.While)) else nxt.value if isinstance(nxt, (ast.Assign, ast.Expr, ast.Return)) else None
+        if head is None or not any(n is first for n in ast.walk(head)):
+            continue  # ... and be the first thing that statement evaluates (its test / its value)
+        class _S(ast.NodeTransformer):
+            def visit_Name(self, n):
+                if n.id == x and isinstance(n.ctx, ast.Load):
+                    return ast.copy_location(copy.deepcopy(v), n)
+                return n
+        fn.body.remove(st)
+        _S().visit(fn)
+        changed = True
+    return changed
+
+
 # ---------------------------------------------------------------- driver
+def nnf(test):
+    """negation normal form of a condition USED AS A TEST (only its truth value and the order in which its operands are
+    evaluated matter): `not (a and b)` = `not a or not b`, `not (a or b)` = `not a and not b` (de Morgan keeps the
+    left-to-right short-circuit order), `not not a` = `a`, `not a == b` = `a != b` (also `in` / `not in`, `is` / `is not`;
+    never `<` / `>=`, which differ on partial orders), nested `and`/`or` of the same kind flattened.  For generators that
+    compare guards as text."""
+    def neg(e):
+        if isinstance(e, ast.UnaryOp) and isinstance(e.op, ast.Not):
+            return pos(e.operand)
+        if isinstance(e, ast.BoolOp):
+            op = ast.Or() if isinstance(e.op, ast.And) else ast.And()
+            return flat(ast.BoolOp(op=op, values=[neg(v) for v in e.values]))
+        if isinstance(e, ast.Compare) and len(e.ops) == 1:
+            flip = {ast.Eq: ast.NotEq, ast.NotEq: ast.Eq, ast.In: ast.NotIn, ast.NotIn: ast.In, ast.Is: ast.IsNot, ast.IsNot: ast.Is}
+            for a, b in flip.items():
+                if isinstance(e.ops[0], a):
+                    return ast.Compare(left=e.left, ops=[b()], comparators=e.comparators)
+        return ast.UnaryOp(op=ast.Not(), operand=e)
+
+    def pos(e):
+        if isinstance(e, ast.UnaryOp) and isinstance(e.op, ast.Not):
+            return neg(e.operand)
+        if isinstance(e, ast.BoolOp):
+            return flat(ast.BoolOp(op=e.op, values=[pos(v) for v in e.values]))
+        return e
+
+    def flat(b):
+        vals = []
+        for v in b.values:
+            if isinstance(v, ast.BoolOp) and type(v.op) is type(b.op):
+                vals.extend(v.values)
+            else:
+                vals.append(v)
+        b.values = vals
+        return b
+
+    return ast.fix_missing_locations(pos(copy.deepcopy(test)))
+
+
 def if_assign_to_ifexp(node):
     """R1, applied by the generators that read a conditional store (StreamIO.__init__): not part of the global
     pass because the pinned source itself uses both spellings"""
@@ -534,6 +633,7 @@ def normalize_tree(tree):
         for fn in [n for n in ast.walk(tree) if isinstance(n, (ast.FunctionDef, ast.AsyncFunctionDef))]:
             _def_to_lambda(fn)
             _drop_final_return_none(fn)
+            _inline_hoisted_subscripts(fn)
         _module_style_imports(tree)
         tree = _Nesting().visit(tree)
         tree = _Format().visit(tree)
